@@ -518,6 +518,35 @@ func rt7(c *core.Ctx, p *core.Prog, onlyDefault bool) {
 		same := sig.kind == d.sig.kind && strings.Join(sig.atoms, ",") == strings.Join(d.sig.atoms, ",")
 		c.Check(same, key, pos, name, fmt.Sprintf("encodes parent ids as %s, which is what %s decodes", sig, d.typ.Obj().Name()),
 			fmt.Sprintf("%s (selectable through the producer's ordering options) encodes parent ids as %s, but the decoder %s always decodes %s: with this ordering the decoded %s are attached to the wrong parents", name, sig, d.typ.Obj().Name(), d.sig, tok))
+		// the previous parent id follows every row: on every path of Encode to a return the field that the
+		// delta is computed against is assigned the current parent id (a delta is relative to the previous
+		// row, not to the first row of the group — the decoder accumulates row by row)
+		if sig.kind != "raw" {
+			var prevF *types.Var
+			pid := s.encode.Params[1]
+			core.EachInstr(s.encode, func(i ssa.Instruction) {
+				bo, ok := i.(*ssa.BinOp)
+				if !ok || bo.Op != token.SUB || core.StripConv(bo.X) != ssa.Value(pid) {
+					return
+				}
+				if fa := core.LoadedField(core.StripConv(bo.Y)); fa != nil {
+					prevF = core.FieldVar(fa)
+				}
+			})
+			if prevF != nil {
+				isUpd := func(i ssa.Instruction) bool {
+					st, ok := i.(*ssa.Store)
+					if !ok {
+						return false
+					}
+					fa, ok := st.Addr.(*ssa.FieldAddr)
+					return ok && core.FieldVar(fa) == prevF && core.DerivesFrom(st.Val, func(v ssa.Value) bool { return v == ssa.Value(pid) })
+				}
+				stale, _ := (core.PathQuery{Fn: s.encode, Avoid: isUpd, ExitReturnOnly: true}).Exists()
+				c.Check(!stale, key+"|prev", pos, name, "the previous parent id is updated on every path of Encode",
+					fmt.Sprintf("%s.Encode can return without assigning the current parent id to %s (e.g. on the same-group path): the next delta is computed against an older row while the decoder accumulates row by row, so from the third row of a group on the related records land on the wrong parent", name, prevF.Name()))
+			}
+		}
 		// Reset re-establishes the state that Encode's first-row test relies on: every prev* field written by Encode is written by Reset
 		if s.reset != nil && sig.kind != "raw" {
 			wr := func(fn *ssa.Function) map[string]bool {
